@@ -135,14 +135,15 @@ fn c01_missing_changes_kernel() {
 }
 
 // @check props=C01 tier=quick
-// @desc Reader GAP step on a writer proxy: GAP(gapStart = g, gapList.base = b, empty bitmap - the only form dust-dds writers emit) processed by the statements of handle_gap_submessage. A sequence number may become available only if every number between the old available_changes_max and it is covered by the GAP: a GAP adjacent to or overlapping the received prefix (g <= max+1) extends available_changes_max to max(old, b-1); a GAP that starts beyond the next expected change (an earlier DATA was lost or overtaken - scenario of the defect repaired by fix 1d4869a) leaves available_changes_max unchanged, and the changes before the gap are still the first ones reported by missing_changes() (so the next ACKNACK names them, c01_reader_heartbeat_acknack).
-// @bounds proxy state symbolic with sequence numbers <= 1000, GAP range of 0..=3 sequence numbers anywhere in 1..=1006, empty bitmap; unwind 6
+// @desc Reader GAP step on a writer proxy: GAP(gapStart = g, gapList.base = b, bitmap empty or with the single bit b) processed by the statements of handle_gap_submessage (irrelevant_change_range + irrelevant_change_set per bit). A sequence number may become available only if every number between the old available_changes_max and it is covered by the GAP: a range adjacent to or overlapping the received prefix (g <= max+1 < b) extends available_changes_max to b-1, the bit b extends it by one more iff b is then the next expected number; a GAP that starts beyond the next expected change (an earlier DATA was lost or overtaken - scenario of the defect repaired by fix 1d4869a) leaves available_changes_max unchanged, and the changes before the gap are still the first ones reported by missing_changes() (so the next ACKNACK names them, c01_reader_heartbeat_acknack).
+// @bounds proxy state symbolic with sequence numbers <= 1000, gapStart in 1..=1003, gapList.base in gapStart..=3000 (range of any length), bitmap empty or {base}; unwind 4
 // @assume glue statements of handle_gap_submessage replicated by support_rtps::glue_gap_proxy (source guard)
+// @enc rtps::writer_proxy::RtpsWriterProxy::irrelevant_change_range
 // @enc rtps::writer_proxy::RtpsWriterProxy::irrelevant_change_set
 // @enc rtps::writer_proxy::RtpsWriterProxy::available_changes_max
 // @enc rtps::writer_proxy::RtpsWriterProxy::missing_changes
 #[kani::proof]
-#[kani::unwind(6)]
+#[kani::unwind(4)]
 fn c01_reader_gap_step() {
     let mut wp = s::new_proxy(ReliabilityKind::Reliable);
     let first: i64 = kani::any();
@@ -153,22 +154,29 @@ fn c01_reader_gap_step() {
     let old_max = wp.available_changes_max();
     let g: i64 = kani::any();
     let b: i64 = kani::any();
-    kani::assume(g >= 1 && g <= 1003 && b >= g && b - g <= 3);
-    let gap = GapSubmessage::new(s::R_ID, s::W_ID, g, SequenceNumberSet::new(b, []));
+    kani::assume(g >= 1 && g <= 1003 && b >= g && b <= 3000);
+    let with_bit: bool = kani::any();
+    let gap = if with_bit {
+        GapSubmessage::new(s::R_ID, s::W_ID, g, SequenceNumberSet::new(b, [b]))
+    } else {
+        GapSubmessage::new(s::R_ID, s::W_ID, g, SequenceNumberSet::new(b, []))
+    };
     s::glue_gap_proxy(&mut wp, &gap);
     let new_max = wp.available_changes_max();
+    let after_range = if g <= old_max + 1 && b > old_max + 1 { b - 1 } else { old_max };
+    let expect = if with_bit && b == after_range + 1 { b } else { after_range };
     assert!(new_max >= old_max, "C01: a GAP never makes available changes unavailable");
-    if g <= old_max + 1 {
-        assert!(new_max == core::cmp::max(old_max, b - 1), "C01: a GAP adjacent to the available prefix extends it to the end of the gap");
-    } else {
+    assert!(new_max == expect, "C01: a GAP extends the available prefix exactly over the irrelevant numbers adjacent to it and never skips a change that is still missing");
+    if g > old_max + 1 {
         assert!(new_max == old_max, "C01: a GAP that starts beyond the next expected change must not skip the changes before it (they are still missing)");
         wp.missing_changes_update(b);
         assert!(wp.missing_changes().next() == Some(old_max + 1), "C01: the changes before a non-adjacent GAP are still reported missing");
     }
-    kani::cover!(g == old_max + 1 && b == g + 3, "GAP of three changes right after the received prefix");
+    kani::cover!(g == old_max + 1 && b == g + 1000 && !with_bit, "GAP of a thousand changes right after the received prefix");
     kani::cover!(g < old_max && b - 1 > old_max, "GAP overlapping the received prefix");
-    kani::cover!(b == g, "empty GAP range");
+    kani::cover!(b == g && with_bit && new_max == b, "empty range, bit for the next expected change");
     kani::cover!(g == old_max + 2 && b > g, "exactly one change missing before the gap");
+    kani::cover!(g <= old_max + 1 && b > old_max + 1 && with_bit && new_max == b, "range plus bit consumed");
     core::mem::forget(wp);
     core::mem::forget(gap);
 }
